@@ -119,7 +119,7 @@ pub fn check(c: &Case) -> Verdict {
         format!("base={}", if base == 0 { "0" } else if base < 128 { "1-byte" } else if base < 16512 { "2-byte" } else if base < 2_113_664 { "3-byte" } else { "4-byte" }),
     ];
     let sample = serde_json::json!({"coin": built.coin.cli(), "base": base, "tip": tip, "start": c.start, "end": c.end, "callback": c.cb.cli(), "expected_heights": format!("{}..={}", s, e)});
-    Verdict::Pass(Pass { nontrivial: ranged && excluded, key: vpmodel::hashes::fnv64(format!("{}|{}|{:?}|{:?}|{}|{}", tip, base, c.start, c.end, c.cb.cli(), built.coin.cli()).as_bytes()), classes, known: vec![], sub_evals: sub, sample: Some(sample) })
+    Verdict::Pass(Pass { nontrivial: ranged && excluded, key: vpmodel::hashes::fnv64(format!("{}|{}|{:?}|{:?}|{}|{}", tip, base, c.start, c.end, c.cb.cli(), built.coin.cli()).as_bytes()), classes, known: vec![], sub_evals: sub, sample: Some(sample), extra_keys: vec![] })
 }
 
 pub fn exhaustive_cases(seed: u64, tmax: u64, tier: Tier) -> Vec<Case> {
